@@ -9,11 +9,11 @@ import (
 	"time"
 )
 
-//verif:entry property=C13 tier=both bounds="K publishes (K_quick=3,K_thorough=4), each with outcome in {ok, unencodable event (by type or by value: NaN), append rejected, deadline expired}; error handler present or nil; persistence timeout set or not; observability set or not" cover="all-ok,some-failed" K_quick=3 K_thorough=4
+//verif:entry property=C13 tier=both bounds="K publishes (K_quick=3,K_thorough=4), each with outcome in {ok, unencodable event (by type or by value: NaN), append rejected (with a plain error or one that also wraps context.Canceled), deadline expired}; error handler present or nil; persistence timeout set or not; observability set or not" cover="all-ok,some-failed" K_quick=3 K_thorough=4
 func harnessC13Failures() {
 	K := vParam("K", 3)
 	mem := NewMemoryStore()
-	fs := &flakyStore{inner: mem}
+	fs := &flakyStore{inner: mem, cancelShaped: vBool()}
 	withHandler := vBool()
 	withTimeout := vBool()
 	withObs := vBool()
